@@ -92,7 +92,14 @@ def case(inp):
         avg = float(nist.comp_mass({k: v for k, v in comp.items()}, False))
         tot = sum(a for _, a in dist)
         mean = sum(m * a for m, a in dist) / tot
-        if abs(mean - avg) > tolm + 2e-4 * max(1, natoms / 50):
+        tol_round = 0.0
+        if prec is not None:
+            # abundances rounded to `precision` places: every peak of the unrounded pattern may move by half a unit in the last place
+            # (the small ones to zero), which shifts the mean by at most (mass range) x (number of peaks) x half-unit / total
+            full = pt.isotopic_distribution(dict(comp), **{k_: v_ for k_, v_ in kw.items() if k_ != 'precision'})
+            ftot = sum(a for _, a in full)
+            tol_round = (full[-1][0] - full[0][0]) * len(full) * 0.5 * 10.0 ** (-prec) / min(tot, ftot)
+        if abs(mean - avg) > tolm + 2e-4 * max(1, natoms / 50) + tol_round:
             return False, ('abundance-weighted mean equals the average mass', avg), mean, None
     if not integer and not pruned and all(k in ('C', 'H', 'N', 'O', 'P', 'S', 'e', 'p', 'n') for k in comp) and \
             (not neutron or kw.get('output_masses_for_neutron_offset')):
